@@ -441,6 +441,7 @@ def case_random(ctx, i):
             return False
         return True
 
+    nn_bonds = None
     try:
         # --- MPO
         H = m.calc_H_MPO()
@@ -489,8 +490,17 @@ def case_random(ctx, i):
         Hs = ED.get_scipy_sparse_Hamiltonian(m, undo_sort_charge=False)
         if not report('get_scipy_sparse_Hamiltonian', np.asarray(Hs.todense())):
             return
-        if not explicit:
+        if True:
+            # (also for an MPO with explicit_plus_hc: the flag travels with the MPO, a plain MPOModel has no flag of its own)
             mm = MPOModel(lat, H)
+            if rng.random() < 0.3:
+                ed_ = ED.ExactDiag.from_H_mpo(H)
+                ed_.build_full_H_from_mpo()
+                ctx.count('rep.exactdiag.from_H_mpo')
+                res_ = ed_.full_H.split_legs()
+                res_ = res_.itranspose(['p%d%s' % (n_, star) for star in ['', '*'] for n_ in range(lat.N_sites)]).to_ndarray()
+                if not report('ExactDiag.from_H_mpo', res_.reshape(ref.shape)):
+                    return
             for from_mpo in (True, ):
                 He = ED.get_numpy_Hamiltonian(mm, from_mpo=from_mpo, undo_sort_charge=False)
                 ctx.count('rep.exactdiag')
@@ -527,6 +537,7 @@ def case_random(ctx, i):
             if not report('calc_H_bond', B):
                 return
             nn = NearestNeighborModel(lat, Hb)
+            nn_bonds = list(Hb)
             H3 = nn.calc_H_MPO_from_bond()
             if not report('calc_H_MPO_from_bond', dense.mpo_to_matrix(H3)):
                 return
@@ -575,31 +586,47 @@ def case_random(ctx, i):
             if not report('MPO.sort_legcharges', dense.mpo_to_matrix(Hs_)):
                 return
         if rng.random() < 0.4 and lat.N_sites >= 2 and not explicit:
-            n = 2
+            n = 2 if lat.N_sites < 3 or rng.random() < 0.5 else int(rng.integers(3, min(lat.N_sites, 4) + 1))
             mg = MPOModel(lat, H.copy())
             mg.group_sites(n)
             ctx.count('flag.group_sites')
+            ctx.count('flag.group_sites.n=%d' % n)
+
+            def in_grouped_basis(gs):
+                # grouped basis: pipes of n sites; exact comparison through the pipe index map
+                pm_all = []
+                k = 0
+                for gsite in gs:
+                    members = sites[k:k + gsite.n_sites]
+                    idx = list(itertools.product(*[range(s.dim) for s in members]))
+                    pm = np.array([gsite.leg.map_incoming_flat(list(r)) for r in idx]) if hasattr(gsite.leg, 'map_incoming_flat') else np.arange(gsite.dim)
+                    pm_all.append(pm)
+                    k += gsite.n_sites
+                gd = [g_.dim for g_ in gs]
+                R4 = ref.reshape(gd + gd)
+                # ref is indexed by C-order tuples within each group; grouped index = pm[tuple index]
+                exp = np.zeros_like(R4)
+                ix = np.ix_(*(pm_all + pm_all))
+                exp[ix] = R4
+                return exp.reshape(ref.shape)
+
             Hg = dense.mpo_to_matrix(mg.H_MPO)
-            # grouped basis: pipes of n sites; map back via the grouped sites' state labels is costly -> compare spectra and
-            # Hermiticity defect, plus exact comparison through the pipe index map
-            gs = mg.lat.mps_sites()
-            pm_all = []
-            k = 0
-            for gsite in gs:
-                members = sites[k:k + gsite.n_sites]
-                idx = list(itertools.product(*[range(s.dim) for s in members]))
-                pm = np.array([gsite.leg.map_incoming_flat(list(r)) for r in idx]) if hasattr(gsite.leg, 'map_incoming_flat') else np.arange(gsite.dim)
-                pm_all.append(pm)
-                k += gsite.n_sites
-            gd = [g_.dim for g_ in gs]
-            R4 = ref.reshape(gd + gd)
-            # ref is indexed by C-order tuples within each group; grouped index = pm[tuple index]
-            exp = np.zeros_like(R4)
-            ix = np.ix_(*(pm_all + pm_all))
-            exp[ix] = R4
-            if not (dist(Hg, exp.reshape(ref.shape)) <= tol):
-                ctx.violation('group_sites:operator-changed', '|H_grouped - H_ref| = %g' % dist(Hg, exp.reshape(ref.shape)), case)
+            exp = in_grouped_basis(mg.lat.mps_sites())
+            if not (dist(Hg, exp) <= tol):
+                ctx.violation('group_sites:operator-changed', '|H_grouped - H_ref| = %g (n=%d)' % (dist(Hg, exp), n), case)
                 return
+            if nn_bonds is not None and lat.N_sites >= 3:
+                # the bond operators of a grouped NearestNeighborModel (bonds inside a group become on-site parts of its bonds)
+                nng = NearestNeighborModel(lat, list(nn_bonds))
+                nng.group_sites(n)
+                ctx.count('flag.group_sites.nearest_neighbor_model')
+                if len(nng.lat.mps_sites()) >= 2:
+                    Hg2 = dense.mpo_to_matrix(nng.calc_H_MPO_from_bond())
+                    exp2 = in_grouped_basis(nng.lat.mps_sites())
+                    if not (dist(Hg2, exp2) <= tol):
+                        ctx.violation('NearestNeighborModel.group_sites:bond-operators-changed', '|H(grouped bonds) - H_ref| = %g (n=%d)' %
+                                      (dist(Hg2, exp2), n), case)
+                        return
     except _Skip:
         raise
     except Exception as e:
